@@ -260,7 +260,8 @@ open Verif.Tables
 /-! ## Pins: the constants of the anchored functions that the hand-written model mirrors
 
 `TablesC08.lean` is regenerated on every run from the code objects of `tsdb._parse_datetime`,
-`_date_fix`, `format`, `escape` and `unescape` (string and number constants; docstrings and message
+`_date_fix` and `format` (`escape` and `unescape` are tied more strongly: their source text is translated and proved
+equal to the model in `Translated.lean`) (string and number constants; docstrings and message
 texts left out; the two `re.VERBOSE` patterns with their layout white space removed).  The model's
 `matchYMD`/`matchDMY`/`parseTime`/`dateFix`/`strptimeFixed`/`formatDate`/`escape`/`unescape` are
 hand-coded equivalents of exactly these patterns and constants, so a change to any of them must be
@@ -273,10 +274,8 @@ theorem c08_pins :
        "(?:(?P<d>[0-9]{1,2})-)?(?P<m>[0-9]{1,2}|\\w{3})-(?P<y>[0-9]{2}(?:[0-9]{2})?)(?:\\s*\\(?(?P<H>[0-9]{2}):(?P<M>[0-9]{2})(?::(?P<S>[0-9]{2}))?\\)?)?",
        "%Y-%m-%d %H:%M:%S"]
     ∧ c08DateFixConsts = ["y", "2", "93", "19", "20", "m", "3", "d", "01", "H", "00", "M", "S", "-", " ", ":"]
-    ∧ c08FormatConsts = [":integer", "-1", "", ":date", "-", "-%Y", " %H:%M:%S"]
-    ∧ c08EscapeConsts = ["\\", "\\\\", "\n", "\\n", "\\s"]
-    ∧ c08UnescapeConsts = ["\\", "s", "@", "n", "\n", ""] := by
-  refine ⟨?_, ?_, ?_, ?_, ?_⟩ <;> rfl
+    ∧ c08FormatConsts = [":integer", "-1", "", ":date", "-", "-%Y", " %H:%M:%S"] := by
+  refine ⟨?_, ?_, ?_⟩ <;> rfl
 
 end Verif.C08
 
